@@ -62,12 +62,21 @@ def conv_case(ctx, rng, lines, pend):
     N = rng.randrange(1, 4)
     case = dict(kind='conv', cin=cin, cout=cout, k=(kh, kw), stride=(sh, sw), pad=(ph, pw), H=H, W=W, bias=bias, N=N)
     torch.manual_seed(rng.randrange(10**6))
-    m = torch.nn.Conv2d(cin, cout, (kh, kw), stride=(sh, sw), padding=(ph, pw), bias=bias).double()
+    regeom = rng.random() < 0.2
+    case['geometry_changed_after_wrapping'] = regeom
+    if regeom:
+        # the module is wrapped first and its stride / zero padding are changed afterwards (densifying a strided stage,
+        # dropping the padding): the helper follows the module, as the convolution itself does
+        m = torch.nn.Conv2d(cin, cout, (kh, kw), stride=(rng.randrange(1, 4), rng.randrange(1, 4)), padding=(rng.randrange(0, 3), rng.randrange(0, 3)), bias=bias).double()
+    else:
+        m = torch.nn.Conv2d(cin, cout, (kh, kw), stride=(sh, sw), padding=(ph, pw), bias=bias).double()
     with torch.no_grad():
         m.weight.copy_(torch.randint(-3, 4, m.weight.shape).double())
         if bias:
             m.bias.copy_(torch.randint(-3, 4, m.bias.shape).double())
     hlp = Conv2dModuleHelper(m)
+    if regeom:
+        m.stride, m.padding = (sh, sw), (ph, pw)
     x = torch.randint(-3, 4, (N, cin, H, W)).double().requires_grad_(True)
     y = m(x)
     gout = torch.randint(-2, 3, y.shape).double()
